@@ -91,6 +91,8 @@ pub enum Data {
 pub enum Case {
     Seq { target: u8, transfer_first: bool, actions: Vec<Act> },
     Upg { target: UT, req: Req, auth: AuthCov, data: Data, transfer_first: bool },
+    /// entry-point sweep (see sweep.rs)
+    Sweep(crate::sweep::SweepCase),
 }
 
 fn act() -> impl Strategy<Value = Act> {
@@ -182,7 +184,7 @@ impl Property for C15 {
         "C15"
     }
     fn rule(&self) -> &'static str {
-        "(A) for each of the five production contracts and a harness contract built with the repo's derive macros: ALL sequences over {upgrade(empty-Wasm hash, keeps native dispatch of the current source), migrate, transfer_ownership} x {owner, former owner, stranger, nobody} up to length 3 (quick) / 4 (thorough), with and without a preceding ownership transfer, enumerated as fixed cases; proptest adds random sequences up to length 8. Oracle: migration-window model (upgrade and transfer need the current owner, upgrade opens the window; migrate needs the *current* owner (also when ownership changed while the window was open) and an open window, closes it, emits upgraded(version)); everything else fails with the ledger snapshot identical; the window flag is also read directly as a recorded cross-check (never a verdict). (B) Upgrader: ALL combinations of target (configurable harness target; native dummy -> committed dummy.wasm; the five production contracts) x requested version (same / next / wrong / current+suffix / strict prefix of what the new code reports) x authorisation coverage (both steps, one step only, none, both by a stranger, both by the former owner) x migration data (well-typed, ill-typed, too many arguments, failing migration, new code reporting another / the old version), enumerated as fixed cases, with and without a preceding ownership transfer. Oracle: success iff versions differ beforehand, the current owner authorised both steps, migrate accepts the data, and the version afterwards equals the request (then version/data are the new ones); otherwise failure with the target's ledger snapshot identical (code, version, data, flag). non-trivial = any case but a lone owner upgrade; distinct by Debug hash"
+        "(A) for each of the five production contracts and a harness contract built with the repo's derive macros: ALL sequences over {upgrade(empty-Wasm hash, keeps native dispatch of the current source), migrate, transfer_ownership} x {owner, former owner, stranger, nobody} up to length 3 (quick) / 4 (thorough), with and without a preceding ownership transfer, enumerated as fixed cases; proptest adds random sequences up to length 8. Oracle: migration-window model (upgrade and transfer need the current owner, upgrade opens the window; migrate needs the *current* owner (also when ownership changed while the window was open) and an open window, closes it, emits upgraded(version)); everything else fails with the ledger snapshot identical; the window flag is also read directly as a recorded cross-check (never a verdict). (B) Upgrader: ALL combinations of target (configurable harness target; native dummy -> committed dummy.wasm; the five production contracts) x requested version (same / next / wrong / current+suffix / strict prefix of what the new code reports) x authorisation coverage (both steps, one step only, none, both by a stranger, both by the former owner) x migration data (well-typed, ill-typed, too many arguments, failing migration, new code reporting another / the old version), enumerated as fixed cases, with and without a preceding ownership transfer. Oracle: success iff versions differ beforehand, the current owner authorised both steps, migrate accepts the data, and the version afterwards equals the request (then version/data are the new ones); otherwise failure with the target's ledger snapshot identical (code, version, data, flag). non-trivial = any case but a lone owner upgrade; distinct by Debug hash. A share of the random cases is an entry-point sweep (the exported functions of all shipped contracts are read from the sources of the tree under test; entry points absent from the pinned inventory get 300 deterministic cases each and half of the random sweep cases): one entry point is called on a fully deployed system (gateway, gas service, operators, token service with a deployed token owned by the service, stand-alone token, upgrader, example app; some contracts optionally upgraded-but-not-migrated) with arguments from pools of principals / contracts / tokens / names / ids / boundary amounts, every require_auth satisfied by the host's mock and recorded; cases where the mock let a contract sign are discarded; oracle: a change of a contract's migration state (code replaced, or migration run) needs that contract's owner among the recorded signers (or to be the called contract) - in particular for a token whose owner is the token service no account's signature may suffice; non-trivial = the call succeeded"
     }
     fn fixed_is_exhaustive(&self) -> Option<&'static str> {
         Some("all {upgrade,migrate,transfer}x{owner,former,stranger,nobody} sequences to length 3 (quick) / 4 (thorough) on 6 targets x {with,without} ownership transfer; and the full Upgrader matrix")
@@ -191,10 +193,14 @@ impl Property for C15 {
         tier.pick(4000, 60000)
     }
     fn strategy(&self, _tier: Tier) -> BoxedStrategy<Case> {
-        (0u8..6, any::<bool>(), proptest::collection::vec(act(), 4..9)).prop_map(|(target, transfer_first, actions)| Case::Seq { target, transfer_first, actions }).boxed()
+        let seq = (0u8..6, any::<bool>(), proptest::collection::vec(act(), 4..9)).prop_map(|(target, transfer_first, actions)| Case::Seq { target, transfer_first, actions }).boxed();
+        match crate::sweep::strategy(crate::sweep::Rule::Code) {
+            Some(sw) => prop_oneof![1 => seq, 1 => sw.prop_map(Case::Sweep)].boxed(),
+            None => seq,
+        }
     }
     fn fixed_cases(&self, tier: Tier) -> Vec<Case> {
-        let mut v = vec![];
+        let mut v: Vec<Case> = crate::sweep::fixed_cases(300).into_iter().map(Case::Sweep).collect();
         let seqs = all_seqs(tier.pick(3, 4));
         for target in 0..6u8 {
             for transfer_first in [false, true] {
@@ -223,6 +229,7 @@ impl Property for C15 {
 
     fn run(&self, case: &Case, cx: &mut Cx) -> Result<(), String> {
         match case {
+            Case::Sweep(sw) => crate::sweep::run(sw, cx, crate::sweep::Rule::Code),
             Case::Seq { target, transfer_first, actions } => {
                 let w = seq_world(*target, *transfer_first);
                 let env = &w.s.env;
